@@ -151,17 +151,28 @@ pub fn run_reuse(a: &Args) {
         let focus = *rng.pick(&["c07", "c05", "c04", "c20"]);
         let mut plan = gen_plan(&mut rng, focus, &a.tier, case_idx + 1);
         if plan.crash == 3 { plan.crash = 2; }   // an unattachable blamed thread is the recorded finding K1 of C05
+        // one fixed history per run: a size limit that the first request's estimate fits and - after the target has grown
+        // past 20 threads - the second request's does not
+        let grow = case_idx == 0;
+        if grow { plan.scen.threads.truncate(3); for t in plan.scen.threads.iter_mut() { if t.kind == Kind::NullSp { t.kind = Kind::Block; } t.at = None; } plan.limit = Some(200_000); plan.blame_late = false; plan.skip = 0; }
         // a thread that can be told to exit between two dumps (the target changes)
-        let exiter = if rng.chance(1, 2) { plan.scen.threads.push(ThreadSpec { kind: Kind::Exiter, sp_off: 0, pages: 2, name: Some(b"exiter".to_vec()), at: None }); Some(plan.scen.threads.len() - 1) } else { None };
+        let exiter = if !grow && rng.chance(1, 2) { plan.scen.threads.push(ThreadSpec { kind: Kind::Exiter, sp_off: 0, pages: 2, name: Some(b"exiter".to_vec()), at: None }); Some(plan.scen.threads.len() - 1) } else { None };
         let mut target = match Target::spawn(&plan.scen, &work) { Ok(t) => t, Err(e) => { out.notes.push(format!("case skipped: {e}")); continue; } };
         let mut cfg = configure(&mut rng, &plan, &target);
-        let ndumps = rng.range(2, if a.tier == "thorough" { 5 } else { 3 });
+        let ndumps = if grow { 2 } else { rng.range(2, if a.tier == "thorough" { 5 } else { 3 }) };
         out.count(&format!("dumps.{ndumps}"));
         for k in 0..ndumps {
+            if k == 1 && grow {
+                let reply = target.cmd("s 26");
+                for tok in reply.split_whitespace().skip(1) { if let Some((t, sp)) = tok.split_once(':') { if let Ok(tid) = t.parse::<i32>() {
+                    let i = target.tids.len(); target.tids.push(tid); target.facts.insert(format!("t{i}.sp"), sp.to_string());
+                    plan.scen.threads.push(ThreadSpec { kind: Kind::Block, sp_off: 0x800, pages: 2, name: None, at: None }); } } }
+                target.settle(); out.count("target.grew_between_dumps");
+            }
             if k == 1 { if let Some(i) = exiter { let _ = target.cmd(&format!("x {i}")); out.count("target.thread_exited_between_dumps"); } }
             // an earlier request of the history may FAIL (destination I/O error after the thread list was written);
             // what it recorded must not leak into the later ones
-            if k + 1 < ndumps && rng.chance(1, 3) {
+            if !grow && k + 1 < ndumps && rng.chance(1, 3) {
                 let fail_at = rng.range(4, 12) as usize;
                 match dump_once_failing(&mut cfg, target.pid, Some(fail_at)) { Ok((Err(_), _, _)) => { out.count("history.failed_request"); } Ok((Ok(_), _, _)) => { out.count("history.failure_not_reached"); } Err(_) => {} }
                 continue;
